@@ -102,11 +102,21 @@ def run_case(case, opts):
             ev.append({"c": "CombineDomains", "parts": [f"dp{i}" for i in case["dorder"]], "dummy": case["dummy"], "h": "dc",
                        "out": {"exc": pylib.exc_name(e)}})
             return hist
+        # the same converter object asked again with the other setting of the dummy switch: a combination of its
+        # own, and the one returned before keeps its value (the snapshot below compares it)
+        try:
+            comb2 = conv.locate_domains(add_dummy_actions=not case["dummy"])
+            live["dc2"] = comb2
+            ev.append({"c": "CombineDomains", "parts": [f"dp{i}" for i in case["dorder"]], "dummy": not case["dummy"], "h": "dc2",
+                       "out": {"vocab": pylib.vocab(comb2), "digest": domain_digest(comb2)}})
+        except Exception as e:  # noqa: BLE001
+            ev.append({"c": "CombineDomains", "parts": [f"dp{i}" for i in case["dorder"]], "dummy": not case["dummy"], "h": "dc2",
+                       "out": {"exc": pylib.exc_name(e)}})
         live["ua"] = parse_event(ev, "ua", UNRELATED_UNTYPED)
         snap(ev, live)
-        # export the combination and parse it back (the combined problem is parsed against that file)
+        # export the combination (same converter object) and parse it back (the combined problem is parsed against that file)
         try:
-            path = MultiAgentDomainsConverter(ordered_dir(wd, order)).export_combined_domain(add_dummy_actions=case["dummy"], output_folder=wd)
+            path = conv.export_combined_domain(add_dummy_actions=case["dummy"], output_folder=wd)
             text = open(path).read()
             dom2 = parse_event(ev, "dx", text)
         except Exception as e:  # noqa: BLE001
